@@ -79,6 +79,7 @@ struct Exchange {
 	Bytes bytes; // everything queued for it
 	bool closes = false; // cache hangs up after the bytes
 	bool tail = false; // served by the clean tail (no scripted deviation)
+	bool end_event_fired = false;
 	bool scripted_faults = false;
 	Belief at_query;
 	std::set<PfxRec> base_pfx; // model of this source at query time
